@@ -261,6 +261,21 @@ func randRec(c *core.Ctx, withQual bool) rec {
 		// a definition is a single line of text without leading/trailing blanks
 		r.Def = strings.NewReplacer("\n", " ", "\t", " ").Replace(r.Def)
 		r.Def = strings.TrimSpace(r.Def)
+		if c.Rng.Intn(6) == 0 {
+			// free text that reads like the other title-line syntax (key=value; ...): it is still the
+			// definition of the record, and names one of its attributes now and then
+			key := "gene"
+			for k := range r.Annot {
+				if c.Rng.Intn(2) == 0 {
+					key = k
+				}
+				break
+			}
+			if strings.ContainsAny(key, " ;=\t\"'{}") || key == "" {
+				key = "gene"
+			}
+			r.Def = strings.TrimSpace(fmt.Sprintf("%s=%s; %s", key, []string{"COI", "3", "1.5", "true"}[c.Rng.Intn(4)], r.Def))
+		}
 	}
 	return r
 }
@@ -730,12 +745,13 @@ func init() {
 		ID:    "C02",
 		Level: "exploration",
 		Rule: "random records (ids without blanks incl. '>' '@' '+' '{', IUPAC sequences of length 1..200 with emphasis on 59,60,61,119,120,121, qualities 0..93, definition present/absent, annotation maps with hostile strings (quotes, backslashes, braces, ';' '=' '>' '@', non-ASCII runes, control characters, the patterns quote+brace), ints to 2^53, floats, bools, map[string]int/string, []int, nested maps) are formatted by the toolkit (FASTA/FASTQ + JSON header), parsed back by the real chunk parser + json/guessed header parser and compared by value, then formatted again (byte fixed point); hand-made JSON titles are parsed, re-formatted and re-parsed; whole files go through WriteFasta/WriteFastq -> ReadSequencesFromFile and through obiconvert. " +
-			"Added later: process-wide input offset different from the output offset, title lines of 4 KiB-70 kB (large merged maps, long strings), maps under the key names merged_* / *_count / *_status holding non-integers, the stream file read back through forced read buffers of 50..4000 bytes. " +
+			"Added later: process-wide input offset different from the output offset, title lines of 4 KiB-70 kB (large merged maps, long strings), maps under the key names merged_* / *_count / *_status holding non-integers, the stream file read back through forced read buffers of 50..4000 bytes. Title lines in the other syntax the parsers accept (key=value; ... free text: sub-check obi-title, a small model of the value forms, rewritten in both syntaxes), definitions that read like such attributes. " +
 			"distinct_nontrivial = distinct (value-type set, hostile-pattern set, length class, format) tuples",
 		Assume: []string{"encoding/json defines value equality (numbers by value)", "definitions are single lines without leading/trailing blanks"},
 		Subs: []core.Sub{
 			{Name: "roundtrip", N: core.Const(64, 2048), Run: runRoundTrip},
 			{Name: "reparse", N: core.Const(32, 1024), Run: runReparse},
+			{Name: "obi-title", N: core.Const(32, 512), Run: runOBITitle},
 			{Name: "stream", N: core.Const(32, 1024), Run: runStream},
 			{Name: "e2e", N: core.Const(24, 480), Run: runE2E},
 		},
